@@ -566,6 +566,7 @@ func c02Judge(p *Plan, o *Outcome, st *Stats, ms, msB []Matcher, kind string, rn
 		}
 		checked := 0
 		for _, s := range o.Result.Series {
+			// (a container whose own Docker label is called msg shows that label, not the line)
 			m := tokenRe.FindStringSubmatch(s.Labels["msg"])
 			if m == nil {
 				continue
